@@ -121,3 +121,10 @@ claim("C16", ENGINE_A + "; relational comparison (A-REL) of the skeleton files o
       "that dropping --extra-imports removes exactly the YAML methods and import (types, variables, JSON methods identical), and that --struct-name-from-title / --capitalization (on families "
       "with concrete names, through the real identifier synthesiser) change identifiers only. Flag wiring in main.go and --schema-root-type are not decided.",
       "as C06", "DESIGN.md §2 C16")
+
+claim("C09", ENGINE_A + "; A-DEF default-assignment oracle + go/types on the whole file",
+      "Decides, for defaults of every kind (scalars of four types, scalars next to length/pattern/bound keywords, non-empty and empty slices, object defaults on structs and typed maps, an enum-typed "
+      "default) in optional/required/nullable positions, with and without --min-sized-ints, that each emitted Unmarshal method assigns the rendered literal to the field exactly once, after the typed "
+      "decode, under the guard 'raw key absent or null' for the exact raw name, before any constraint on that field is evaluated; that defaulted fields are exempt from the presence check and others get "
+      "no assignment; and that the literal has the Go type of the field (the file type-checks). Two known findings (nullable+default; default-key selectors).",
+      "as C01", "DESIGN.md §2 C09")
